@@ -32,6 +32,13 @@ ASSUMPTIONS = ["granularity = asyncio callbacks of the installed CPython 3.12 (t
 BIG = 10_000.0
 
 
+class FalsyItem(tuple):
+    """An item whose truth value is False - like 0, "" or a protobuf message holding only defaults (Message.__bool__)."""
+
+    def __bool__(self):
+        return False
+
+
 def run_scenario(cfg, chooser, max_steps=20000):
     """Run one schedule. Returns (violations [(clause, detail)], info)."""
     from betterproto.grpc.util.async_channel import AsyncChannel, ChannelClosed, ChannelDone
@@ -48,7 +55,8 @@ def run_scenario(cfg, chooser, max_steps=20000):
         sender_items = []
         n = 0
         for s in cfg["senders"]:
-            sender_items.append([(len(sender_items), k) for k in range(s["items"])])
+            mk = FalsyItem if cfg.get("falsy_items") else tuple
+            sender_items.append([mk((len(sender_items), k)) for k in range(s["items"])])
         all_items = [it for items in sender_items for it in items]
 
         async def sender(i, spec):
@@ -254,6 +262,127 @@ def run_scenario(cfg, chooser, max_steps=20000):
     return out, S
 
 
+def run_rpc_scenario(how, chooser, n_first=2, max_steps=60000):
+    """The request side of a stream-stream rpc (ServiceStub._stream_stream) is a receiver of the AsyncChannel it is
+    handed.  The caller is cancelled / abandons the responses while that receiver is blocked on the empty channel; the
+    channel must stay usable with no item lost: an item sent afterwards goes to the only receiver that is still
+    there.  Runs on the controlled loop over grpclib's in-memory test channel.  -> [(clause, detail)]"""
+    import asyncio as aio
+    from dataclasses import dataclass
+
+    import betterproto
+    import grpclib.const
+    from betterproto.grpc.grpclib_client import ServiceStub
+    from betterproto.grpc.util.async_channel import AsyncChannel, ChannelDone
+    from grpclib.testing import ChannelFor
+
+    @dataclass(eq=False, repr=False)
+    class Req(betterproto.Message):
+        n: int = betterproto.int32_field(1)
+
+    class Echo:
+        def __init__(self):
+            self.seen = []
+
+        async def echo(self, stream):
+            async for request in stream:
+                self.seen.append(request.n)
+                await stream.send_message(Req(n=request.n))
+
+        def __mapping__(self):
+            return {"/c12.Echo/Echo": grpclib.const.Handler(self.echo, grpclib.const.Cardinality.STREAM_STREAM, Req, Req)}
+
+    class Stub(ServiceStub):
+        def echo(self, it):
+            return self._stream_stream("/c12.Echo/Echo", it, Req, Req)
+
+    out = []
+
+    async def settle(n=400):
+        for _ in range(n):
+            await aio.sleep(0)
+
+    async def main():
+        svc = Echo()
+        async with ChannelFor([svc]) as gch:
+            stub = Stub(gch)
+            requests = AsyncChannel()
+            responses = []
+
+            async def caller():
+                call = stub.echo(requests)
+                if how == "abandon":
+                    async for resp in call:
+                        responses.append(resp.n)
+                        if len(responses) == n_first:
+                            break
+                    await call.aclose()
+                    return "abandoned"
+                async for resp in call:
+                    responses.append(resp.n)
+
+            task = aio.ensure_future(caller())
+            for k in range(n_first):
+                await requests.send(Req(n=k + 1))
+            for _ in range(50):
+                if len(responses) == n_first:
+                    break
+                await settle(50)
+            if responses != list(range(1, n_first + 1)):
+                out.append(("__inconclusive", f"rpc did not echo the first items: {responses}"))
+                task.cancel()
+                try:
+                    await task
+                except BaseException:  # noqa: BLE001
+                    pass
+                return
+            if how == "cancel":
+                task.cancel()
+            try:
+                outcome = await aio.wait_for(task, BIG / 10)
+            except aio.CancelledError:
+                outcome = "cancelled"
+            except aio.TimeoutError:
+                outcome = "still_running"
+            want = "cancelled" if how == "cancel" else "abandoned"
+            if outcome != want:
+                out.append(("cancellation_surfaces_as_other_error", f"caller ended with {outcome!r}, want {want!r}"))
+            await settle()
+            receiver = aio.ensure_future(requests.receive())
+            await settle(50)
+            await requests.send(Req(n=99))
+            await settle()
+            if not receiver.done():
+                out.append(("item_lost", f"an item sent after the rpc's caller was {want} never reached the only receiver left (server saw {svc.seen})"))
+                receiver.cancel()
+            else:
+                got = receiver.result()
+                if got is None or got.n != 99:
+                    out.append(("item_lost", f"the receiver left got {got!r}"))
+            if 99 in svc.seen:
+                out.append(("item_received_twice" if receiver.done() and not receiver.cancelled() and receiver.result() is not None else "item_lost",
+                            f"the ended rpc still consumed the item sent afterwards (server saw {svc.seen})"))
+            requests.close()
+            tail = aio.ensure_future(requests.receive())
+            await settle(50)
+            if not tail.done():
+                out.append(("receiver_stranded_after_close", "receive() after close is pending"))
+                tail.cancel()
+            else:
+                try:
+                    tail.result()
+                except ChannelDone:
+                    pass
+
+    try:
+        run_controlled(main, chooser, max_steps=max_steps, max_virtual_time=BIG)
+    except StepLimit:
+        return [("__inconclusive_step_limit", "step cap hit")]
+    except Deadlock:
+        out.append(("main_task_deadlocked", "the rpc scenario could not finish"))
+    return out
+
+
 def cfg_class(cfg):
     parts = ["bounded" if cfg.get("buffer") else "unbounded",
              "+".join(sorted({r["mode"] for r in cfg["receivers"]}))]
@@ -265,6 +394,8 @@ def cfg_class(cfg):
         parts.append("send_from")
     if any(s["mode"] == "send_from_close" for s in cfg["senders"]):
         parts.append("send_from_close")
+    if cfg.get("falsy_items"):
+        parts.append("falsy_items")
     return "|".join(parts)
 
 
@@ -278,6 +409,8 @@ SMALL_CONFIGS = [
     {"name": "sendfrom2_2rx", "senders": [{"items": 2, "mode": "send_from"}], "receivers": [{"mode": "receive"}, {"mode": "iter"}]},
     {"name": "sendfrom_close_1i_3rx", "senders": [{"items": 1, "mode": "send_from_close"}], "receivers": [{"mode": "receive"}, {"mode": "iter"}, {"mode": "receive"}]},
     {"name": "sendfrom_close_2i_2rx_bounded1", "senders": [{"items": 2, "mode": "send_from_close"}], "receivers": [{"mode": "iter"}, {"mode": "receive"}], "buffer": 1},
+    {"name": "falsy_items_2rx_mixed", "senders": [{"items": 2, "mode": "send"}], "receivers": [{"mode": "iter"}, {"mode": "receive"}], "falsy_items": True},
+    {"name": "falsy_items_sendfrom_iter", "senders": [{"items": 2, "mode": "send_from"}], "receivers": [{"mode": "iter"}], "falsy_items": True, "buffer": 1},
     {"name": "3rx_bounded1_close_only", "senders": [], "receivers": [{"mode": "receive"}, {"mode": "iter"}, {"mode": "receive"}], "buffer": 1},
     {"name": "2rx_bounded1_1s1i", "senders": [{"items": 1, "mode": "send"}], "receivers": [{"mode": "receive"}, {"mode": "receive"}], "buffer": 1},
     {"name": "timeout_then_items", "senders": [{"items": 2, "mode": "send", "delay": 7}], "receivers": [{"mode": "receive", "timeout": 5}, {"mode": "receive"}], "closer_vdelay": 10},
@@ -357,11 +490,21 @@ def targets(ctx):
         receivers = [{"mode": draw(st.sampled_from(["receive", "iter"]))} for _ in range(nr)]
         cfg = {"senders": senders, "receivers": receivers, "buffer": draw(st.sampled_from([0, 0, 1, 2])),
                "closer_delay": draw(st.integers(0, 3))}
+        if draw(st.integers(0, 3)) == 0:
+            cfg["falsy_items"] = True
         if draw(st.integers(0, 2)) == 0:
             cfg["cancel"] = {"target": draw(st.integers(0, nr - 1)), "delay": draw(st.integers(0, 4))}
         return {"cfg": cfg, "choices": draw(st.lists(st.integers(0, 5), max_size=60))}
 
+    def rpc_ev(case):
+        found = run_rpc_scenario(case["how"], PathChooser(case["choices"]), case.get("n_first", 2))
+        fails = [Failure(cl, f"rpc_request_channel|{cl}|{case['how']}", f"case={case} :: {d}") for cl, d in found if not cl.startswith("__")]
+        return Eval(fails, nontrivial=not any(cl.startswith("__") for cl, _ in found), labels=[f"rpc:{case['how']}"] + (["inconclusive"] if any(cl.startswith("__") for cl, _ in found) else []))
+
+    rpc_strat = st.fixed_dictionaries({"how": st.sampled_from(["cancel", "abandon"]), "n_first": st.integers(1, 3), "choices": st.lists(st.integers(0, 5), max_size=80)})
+
     return [
+        Target("rpc_request_channel_caller_cancelled", rpc_ev, strategy=rpc_strat, quick=12, thorough=300, time_quick=60),
         Target("all_schedules_small_configs", dfs_ev, cases=dfs_cases, exhaustive=True,
                rule="every schedule of each listed small configuration (DFS over the ready-queue choice tree)", time_quick=600, time_thorough=3000),
         Target("random_schedules_larger_configs", rand_ev, strategy=cfg_strat(), quick=250, thorough=8000, time_quick=60),
